@@ -153,34 +153,76 @@ def build(sp, meta=True, as_list=False):
         if sp.get("forder") and v.ndim >= 2:
             v = np.asfortranarray(v)
         hist = bool(sp.get("history")) and not as_list and v.ndim >= 1 and all(len(l) for l in sp["labels"])
-        if hist:
-            # same values, the labels of every axis rotated by one and (N-d) the names of the first two dimensions exchanged
+        if not hist:
+            a = da.DimArray(v, axes=axes)
+        else:
+            # same values; the array first lives with the labels of every axis rotated by one and (N-d) the names of the first two
+            # dimensions exchanged, is put to use, and reaches its final labels / names through legitimate in-place edits
             final_labels = [ax.values.copy() for ax in axes]
             final_names = [ax.name for ax in axes]
-            for ax in axes:
-                ax._values = np.roll(ax.values, 1)
+            first_names = list(final_names)
             if v.ndim >= 2:
-                axes[0]._name, axes[1]._name = final_names[1], final_names[0]
-        a = da.DimArray(v, axes=axes)
-        if hist:
-            try:
-                (a + a.ix[::-1]) if a.ndim else None
-                a.mean(axis=0), a.sum(), a.max(axis=-1), a.cumsum(axis=0), a.T       # (whatever these bind or cache on the instance)
-                for ax in a.axes:
-                    ax.is_monotonic()
-                    a.take({ax.name: [ax.values[-1], ax.values[0]]})
-                    a.take_axis([ax.values[0]], axis=ax.name)
-                    a.sort_axis(axis=ax.name)
-                    a.reindex_axis(ax.values[::-1].copy(), axis=ax.name)
-                    if ax.values.dtype.kind in 'iuf' and ax.size > 1:
-                        a.interp_axis([float(ax.values.min())], axis=ax.name)
-                    a.reindex_axis(ax.values[::-1].copy(), axis=ax.name)      # (the last search made on this array's own label buffers)
-            except Exception:
-                pass        # judged by the property owning that operation
-            for ax, lab in zip(a.axes, final_labels):
-                ax[:] = lab                         # same dtype: written into the existing label buffer
-            if v.ndim >= 2:
-                a.axes[0].name, a.axes[1].name = final_names[0], final_names[1]
+                first_names[0], first_names[1] = final_names[1], final_names[0]
+            first = []
+            for ax, nm in zip(axes, first_names):
+                ax0 = da.Axis(np.roll(ax.values, 1), nm)
+                ax0.attrs.update(ax.attrs)
+                first.append(ax0)
+            a = da.DimArray(v, axes=first)
+            variant = (sum(len(l) for l in sp["labels"]) + len(sp["dims"])) % 4
+            def use(f):
+                try:
+                    f()
+                except Exception:
+                    pass        # judged by the property owning that operation
+            l0 = a.axes[0].values[0]
+            for f in (lambda: a + a.ix[::-1], lambda: a.mean(axis=0), lambda: a.sum(), lambda: a.max(axis=-1), lambda: a.cumsum(axis=0), lambda: a.T,
+                      lambda: a.median(axis=0), lambda: a.argmax(),      # (whatever these bind or cache on the instance)
+                      lambda: a.ix[0], lambda: a.iloc[0], lambda: a.loc[l0], lambda: a.nloc[l0], lambda: a.box[l0], lambda: a[l0],
+                      lambda: a.sel({a.dims[0]: l0}), lambda: a.isel({a.dims[-1]: 0}), lambda: (a.dims, a.labels, a.shape),
+                      lambda: getattr(a, a.dims[-1]), lambda: hasattr(a, 'units'), lambda: a.flatten(), lambda: a.flatten().unflatten(),
+                      lambda: a.transpose(*reversed(a.dims)), lambda: a.swapaxes(a.dims[0], a.dims[-1]), lambda: a.rollaxis(a.dims[-1]),
+                      lambda: a.newaxis('__n__'), lambda: a.squeeze(), lambda: a.copy(), lambda: a == a, lambda: da.align([a, a.ix[::-1]])):
+                use(f)
+            for ax in a.axes:
+                lv = ax.values
+                for f in (lambda: ax.is_monotonic(), lambda: a.take({ax.name: [lv[-1], lv[0]]}), lambda: a.take_axis([lv[0]], axis=ax.name),
+                          lambda: a.sort_axis(axis=ax.name), lambda: a.reindex_axis(lv[::-1].copy(), axis=ax.name),
+                          lambda: a.interp_axis([float(lv.min())], axis=ax.name) if (lv.dtype.kind in 'iuf' and lv.size > 1) else None,
+                          lambda: a.diff(axis=ax.name), lambda: a.mean(axis=ax.name),
+                          lambda: a.reindex_axis(lv[::-1].copy(), axis=ax.name)):      # (the last search made on this array's own label buffers)
+                    use(f)
+            if variant == 2:
+                # the array handed out is a shallow copy of the used one (`copy(shallow=True)`: "to overwrite attributes without
+                # affecting the initial array") that is given axes of its own; the used one stays as it was
+                a_used = a
+                a = a_used.copy(shallow=True)
+                a.axes = [da.Axis(lab, nm) for lab, nm in zip(final_labels, final_names)]
+                for ax, ax0 in zip(a.axes, first):
+                    ax.attrs.update(ax0.attrs)
+            elif variant == 3:
+                # ... or the variable of a Dataset the used array was stored in, relabelled and renamed through the Dataset
+                ds = da.Dataset()
+                ds['v'] = a
+                for nm0, lab in zip(first_names, final_labels):
+                    ds.set_axis(lab, axis=nm0)
+                if v.ndim >= 2:
+                    ds.rename_axes({first_names[0]: '__tmp__'})
+                    ds.rename_axes({first_names[1]: final_names[1]})
+                    ds.rename_axes({'__tmp__': final_names[0]})
+                a = ds['v']
+            else:
+                for ax, lab in zip(a.axes, final_labels):
+                    ax[:] = lab                         # same dtype: written into the existing label buffer
+                if v.ndim >= 2:
+                    if variant == 0:
+                        a.axes[0].name = '__tmp__'
+                        a.axes[1].name = final_names[1]
+                        a.axes[0].name = final_names[0]
+                    else:
+                        a.set_axis(name='__tmp__', axis=0, inplace=True)
+                        a.set_axis(name=final_names[1], axis=1, inplace=True)
+                        a.set_axis(name=final_names[0], axis=0, inplace=True)
     except Exception as e:
         # a well-formed (values, Axis objects) specification that the constructor refuses is a C05 matter
         # (the host workload then reports a harness error, i.e. is inconclusive)
